@@ -201,7 +201,7 @@ func limiterMain(s *simrt.Sim, info *harness.RunInfo) {
 	skipFailed := s.Chance(250)
 	skipOK := !skipFailed && s.Chance(150)
 	storageKind := s.Draw(4)
-	nclients := s.Range(2, 6)
+	nclients := s.Range(2, harness.Scale(6, 9))
 	preempt := simrt.PickS(s, 150, 0, 50, 400)
 	clock := harness.StartCoarseClock(s, 0)
 
@@ -265,7 +265,7 @@ func limiterMain(s *simrt.Sim, info *harness.RunInfo) {
 	plans := make([]plan, nclients)
 	thinks := []int{0, 200, 900, E * 1000, (2*E + 1) * 1000, 400}
 	for ci := range plans {
-		n := s.Range(1, 8)
+		n := s.Range(1, harness.Scale(8, 12))
 		for j := 0; j < n; j++ {
 			op := &limOp{id: len(ops), client: ci, key: "k" + strconv.Itoa(s.Draw(nkeys)), max: cfgMax, wantStatus: 200}
 			if dynMax {
